@@ -340,6 +340,10 @@ func additive(symbols []pr.IntNamedString, value int) (string, bool) {
 	}
 	var parts []string
 	for _, vs := range symbols {
+		if vs.Int == 0 {
+			// a zero weight is only used to represent the value 0
+			continue
+		}
 		repetitions := value / vs.Int
 		parts = append(parts, strings.Repeat(symbol(vs.NamedString), repetitions))
 		value -= vs.Int * repetitions
